@@ -7,8 +7,13 @@
 package c03
 
 import (
+	"fmt"
 	"os"
+	"path/filepath"
+	"regexp"
 	"sync"
+
+	"verifharness/tlcrun"
 
 	"verifharness/core"
 )
@@ -30,6 +35,10 @@ func Run(r *core.Run) {
 		wg.Add(1)
 		go func() { defer wg.Done(); foldBinding(r) }()
 	}
+	if os.Getenv("C03_SKIP_DESIGN") == "" {
+		wg.Add(1)
+		go func() { defer wg.Done(); designChecks(r) }()
+	}
 	wg.Add(1)
 	go func() {
 		defer wg.Done()
@@ -37,4 +46,24 @@ func Run(r *core.Run) {
 	}()
 	wg.Wait()
 	r.Set("rule", "fold: every (operator, a, b) over the 22-value boundary grid in each compile-time-evaluation context; programs: TLC-generated expression trees / statement skeletons with probe leaves x environments; non-trivial = the program matches >= 1 peephole pattern class of JsSem and the minified output differs textually from the unminified print; distinct by (program, options)")
+}
+
+// designChecks: TLC on the model alone. The small-step machine of JsSemStep must be
+// deterministic (one rule per configuration), total (no stuck configuration) and agree
+// with the big-step evaluator JsSem!Ev that predicts the traces; the skeleton family must
+// inhabit every pattern class the property names (ASSUME in JsSemStep).
+func designChecks(r *core.Run) {
+	cfgName := map[bool]string{false: "JsSemStep.quick.cfg", true: "JsSemStep.thorough.cfg"}[r.Thorough()]
+	raw, err := os.ReadFile(filepath.Join(r.Verif, "spec", "cfg", cfgName))
+	if err != nil {
+		r.Infra("cannot read %s: %v", cfgName, err)
+		return
+	}
+	cfg := regexp.MustCompile(`(?m)^(\s*Seed\s*=\s*).*$`).ReplaceAllString(string(raw), "${1}"+fmt.Sprint(r.Seed))
+	res := tlcrun.MustHold(r, tlcrun.Options{Module: "JsSemStep", Config: cfgName, Workers: r.Pick(2, 4), TimeoutSec: r.Pick(900, 3000), XssMB: 256, HeapGB: 2,
+		Files: map[string]string{cfgName: cfg}})
+	if res != nil {
+		r.Set("tlc_small_step", map[string]interface{}{"generated": res.Generated, "distinct": res.Distinct, "depth": res.Depth,
+			"invariants": []string{"Deterministic", "Progress", "Agreement"}, "assume": "InhabitedBy(SkelProgs)"})
+	}
 }
